@@ -23,6 +23,9 @@ var (
 	removeGEREventSignature = crypto.Keccak256Hash([]byte("UpdateRemovalHashChainValue(bytes32,bytes32)"))
 )
 
+// ppSyncBlockChunkSize is the maximum number of blocks queried for events in a single call
+const ppSyncBlockChunkSize = uint64(1000)
+
 type downloaderPP struct {
 	*sync.EVMDownloaderImplementation
 	l2GERManager   *globalexitrootmanagerl2sovereignchain.Globalexitrootmanagerl2sovereignchain
@@ -89,10 +92,33 @@ func (d *downloaderPP) Download(ctx context.Context, fromBlock uint64, downloade
 		default:
 		}
 
-		// Wait for new blocks before processing
-		fromBlock = d.WaitForNewBlocks(ctx, fromBlock)
-		for _, block := range d.GetEventsByBlockRange(ctx, fromBlock, fromBlock) {
-			downloadedCh <- *block
+		// Wait for new blocks before processing. fromBlock is the first block that has not been
+		// fetched yet, so the last block seen is the one before it
+		lastBlockSeen := uint64(0)
+		if fromBlock > 0 {
+			lastBlockSeen = fromBlock - 1
+		}
+		lastBlock := d.WaitForNewBlocks(ctx, lastBlockSeen)
+		// Fetch every block up to the new tip, not only the tip: the chain can advance by more
+		// than one block between two polls
+		for fromBlock <= lastBlock && ctx.Err() == nil {
+			toBlock := min(fromBlock+ppSyncBlockChunkSize-1, lastBlock)
+			// The header of the last block of the range is read before the events: if the chain
+			// is reorganised in between, the reorg detector will notice it on this block
+			header, isCanceled := d.GetBlockHeader(ctx, toBlock)
+			if isCanceled {
+				break
+			}
+			blocks := d.GetEventsByBlockRange(ctx, fromBlock, toBlock)
+			for _, block := range blocks {
+				downloadedCh <- *block
+			}
+			if len(blocks) == 0 || blocks[len(blocks)-1].Num < toBlock {
+				// report the last block of the range (without events), so that the progress
+				// is recorded and the block is tracked by the reorg detector
+				downloadedCh <- sync.EVMBlock{EVMBlockHeader: header}
+			}
+			fromBlock = toBlock + 1
 		}
 	}
 }
